@@ -14,6 +14,9 @@ def main(tier, seed):
     items = []
     items += fam_tt.template_family(seed, tier)
     items += fam_tt.exit_templates()
+    from hv import fam_seq, fam_ops
+    items += fam_seq.bool_structure(seed, tier)[::3 if quick else 1]      # every branch lowering re-checks its inverse condition
+    items += [it for it in fam_ops.ops_family(seed, tier, [2]) if it.meta['family'].startswith(('op:cmp_int', 'op:log_', 'op:not'))][::4 if quick else 1]
     items += fam_tt.random_tt(seed + 3, 45 if quick else 500)
     core = fam_tt.core_family(seed + 1, tier)
     import random
